@@ -132,6 +132,12 @@ def check(obs, backend):
             viol.append({"cls": "wrongly-removed",
                          "sig": "wrongly-removed|%s|victim=%s|vd=%s" % (base, relation(E, pre[i]), dclass(pre[i])),
                          "detail": {"E": oracles.brief(E), "victim": oracles.brief(pre[i]), "res": o["res"]}})
+        # "never removes an event with a different author, kind or d-value": what stays keeps its access paths
+        from . import c17
+        for v in c17.index_entries(o, backend):
+            v["sig"] = v["sig"] + "|after-replacement"
+            v["detail"]["E"] = oracles.brief(E)
+            viol.append(v)
         # the newest version of every address survives
         pool = dict(pre)
         if not model.is_ephemeral(E["kind"]):
@@ -154,7 +160,7 @@ def check(obs, backend):
 
 
 def run(case, sim):
-    w, obs = store.run_store(sim, case["backend"], case["ops"])
+    w, obs = store.run_store(sim, case["backend"], case["ops"], full_gc=True)
     viol, nontrivial = check(obs, case["backend"])
     seen, v2 = set(), []
     for v in viol:
